@@ -35,6 +35,7 @@ type layout struct {
 	Single  []bool `json:"single,omitempty"`       // one-element page written as a bare value instead of a list
 	Decoys  bool   `json:"decoys,omitempty"`       // first/prev/partOf on pages, next/last/current on the root
 	Nulls   bool   `json:"nulls,omitempty"`        // members that would be left out are written as JSON null instead (same meaning)
+	Total   string `json:"total_items,omitempty"`  // how totalItems is reported: "" plausible | zero | absent | small | string | negative
 }
 
 func (l layout) tag(p, i int) string { return fmt.Sprintf("e-%d-%d", p, i) }
@@ -83,7 +84,20 @@ func (l layout) page(p int) any {
 	} else {
 		m[itemsKey] = items
 	}
-	m["totalItems"] = float64(len(l.Sizes) * 3)
+	// totalItems is advisory (servers report stale, rounded or zero counts): it never decides what is delivered
+	switch l.Total {
+	case "zero":
+		m["totalItems"] = 0.0
+	case "absent":
+	case "small":
+		m["totalItems"] = 1.0
+	case "string":
+		m["totalItems"] = "many"
+	case "negative":
+		m["totalItems"] = -1.0
+	default:
+		m["totalItems"] = float64(len(l.Sizes) * 3)
+	}
 	if p+1 < len(l.Sizes) {
 		m[nextKey] = l.page(p + 1)
 	} else if l.Nulls {
@@ -378,13 +392,14 @@ func TestVerifC10(t *testing.T) {
 /* ---------- remote and cyclic chains through the TLS simulator ---------- */
 
 type remoteLayout struct {
-	Sizes     []int  `json:"sizes"` // root, then pages
-	Tail      string `json:"tail"`  // "" end | "cycle:<k>" next of the last page points back to page k | "404" | "forged" (page served under another id) | "self"
-	Ordered   bool   `json:"ordered"`
-	Reqs      []int  `json:"request_sizes"`
-	CaseTwins bool   `json:"case_twins,omitempty"` // page addresses differ only in letter case
-	RefStyle  []int  `json:"ref_style,omitempty"`  // per page: successor written as 0 address | 1 {id} | 2 {id,type}
-	Nulls     bool   `json:"nulls,omitempty"`      // the last page says "next": null instead of leaving it out
+	Sizes      []int  `json:"sizes"` // root, then pages
+	Tail       string `json:"tail"`  // "" end | "cycle:<k>" next of the last page points back to page k | "404" | "forged" (page served under another id) | "self"
+	Ordered    bool   `json:"ordered"`
+	Reqs       []int  `json:"request_sizes"`
+	CaseTwins  bool   `json:"case_twins,omitempty"`  // page addresses differ only in letter case
+	PathCursor bool   `json:"path_cursor,omitempty"` // page addresses carry an escaped cursor in the path
+	RefStyle   []int  `json:"ref_style,omitempty"`   // per page: successor written as 0 address | 1 {id} | 2 {id,type}
+	Nulls      bool   `json:"nulls,omitempty"`       // the last page says "next": null instead of leaving it out
 }
 
 func remoteCase(c *ev.Ctx, s *sim.Sim, r *rand.Rand, n int) {
@@ -420,6 +435,7 @@ func remoteCase(c *ev.Ctx, s *sim.Sim, r *rand.Rand, n int) {
 	w.Stamp = false
 	base := fmt.Sprintf("https://%s/c10/%d-%d-%d", s.Host(2), c.R.Shard, n, r.Intn(1<<30))
 	l.CaseTwins, l.Nulls = r.Intn(4) == 0, r.Intn(4) == 0
+	l.PathCursor = !l.CaseTwins && r.Intn(5) == 0
 	l.RefStyle = make([]int, np+1)
 	if r.Intn(3) == 0 {
 		for i := range l.RefStyle {
@@ -429,6 +445,10 @@ func remoteCase(c *ev.Ctx, s *sim.Sim, r *rand.Rand, n int) {
 	addr := func(p int) string {
 		if p == 0 {
 			return base
+		}
+		if l.PathCursor {
+			// an opaque cursor in a path segment, with escaped reserved characters (they are part of the address as they stand)
+			return fmt.Sprintf("%s/after/Pz8%%2F%dw%%3D%%3D%%20x%%25", base, p)
 		}
 		if l.CaseTwins {
 			// cursors that differ from their neighbours only in the case of a letter: distinct addresses all the same
@@ -460,7 +480,10 @@ func remoteCase(c *ev.Ctx, s *sim.Sim, r *rand.Rand, n int) {
 			items[i] = tag(p, i)
 		}
 		doc[key] = items
-		doc["totalItems"] = 99.0
+		doc["totalItems"] = []any{99.0, 99.0, 0.0, 0.0, 1.0, "x", -3.0}[r.Intn(7)]
+		if r.Intn(8) == 0 {
+			delete(doc, "totalItems")
+		}
 		if p > 0 && r.Intn(2) == 0 {
 			doc["first"], doc["partOf"] = addr(1), base
 			if p > 1 {
@@ -643,6 +666,9 @@ func randomCase(r *rand.Rand) caseDesc {
 		}
 		l.NoItems[p] = r.Intn(2) == 0
 		l.Nulls = l.Nulls || r.Intn(4*np) == 0
+		if p == 0 {
+			l.Total = []string{"", "", "", "zero", "zero", "absent", "small", "string", "negative"}[r.Intn(9)]
+		}
 		l.Single[p] = r.Intn(3) == 0
 	}
 	if r.Intn(3) == 0 {
